@@ -183,6 +183,53 @@ Fixpoint ref_pairs (ps : list (bytes * bytes)) : bytes :=
 Definition ref_rdispatch (status : Z) (ps : list (bytes * bytes)) (rest : bytes) : bytes :=
   be 1 status ++ be 2 (Z.of_nat (length ps)) ++ ref_pairs ps ++ rest.
 
+(* ---- the byte stream of a connection ------------------------------------------------------------
+   An independent reader of the connection's byte stream: read a 4-byte size, then that many bytes, repeat; stops at
+   the first incomplete frame and returns the frames read (each with its size prefix) and the unread tail.
+   fuel: one unit per frame (a frame has at least its 4 size bytes, so length s + 1 always suffices). *)
+Fixpoint split_stream (fuel : nat) (s : bytes) : list bytes * bytes :=
+  match fuel with
+  | O => ([], s)
+  | S k =>
+      match parse_u 4 s with
+      | None => ([], s)
+      | Some (sz, r) =>
+          if len r <? sz then ([], s)
+          else let '(fs, rest) := split_stream k (drop sz r) in ((take 4 s ++ take sz r) :: fs, rest)
+      end
+  end.
+
+Definition T_ping : Z := 65.
+(* what a thriftmux client may put on the wire: Tdispatch with a decodable body, an empty Tping, a Tdiscarded on tag 0 *)
+Definition client_frame_ok (f : bytes) : bool :=
+  match parse_frame f with
+  | Some (t, tag, body) =>
+      if t =? T_dispatch then match parse_tdispatch body with Some _ => true | None => false end
+      else if t =? T_ping then match body with [] => true | _ => false end
+      else if t =? T_discarded then (tag =? 0) && match parse_tdiscarded body with Some _ => true | None => false end
+      else false
+  | None => false
+  end.
+
+Fixpoint is_prefix (a b : bytes) : bool :=
+  match a, b with
+  | [], _ => true
+  | x :: a', y :: b' => (x =? y) && is_prefix a' b'
+  | _ :: _, [] => false
+  end.
+
+(* writes: the buffers the client handed to the socket, in call order; stream: the bytes that reached the peer.
+   The reader must recover exactly the written buffers, each a well-formed client frame; only the last buffers may be
+   missing or cut (a connection that was closed, or a write still blocked when the run ends): `complete` = nothing may
+   be missing. *)
+Definition stream_ok (writes : list bytes) (stream : bytes) (complete : bool) : bool :=
+  let '(fs, rest) := split_stream (S (length stream)) stream in
+  list_eqb zlist_eqb fs (firstn (length fs) writes)
+  && forallb client_frame_ok fs
+  && forallb client_frame_ok writes
+  && is_prefix rest (concat (skipn (length fs) writes))
+  && (negb complete || (Nat.eqb (length fs) (length writes) && match rest with [] => true | _ => false end)).
+
 (* ---- correspondence cases (generated by harness/props/c13.py) --------------------------------- *)
 Definition obytes_eqb : option bytes -> option bytes -> bool := option_eqb zlist_eqb.
 
@@ -191,7 +238,8 @@ Inductive case :=
 | CReadHeader (s : bytes) (expect : option (Z * Z))
 | CDispatch (tag : Z) (props headers : list entry) (payload : bytes) (expect : option bytes)
 | CDiscard (which : Z) (reason : text) (expect : option bytes)
-| CRdispatch (s : bytes) (expect : option (Z * bytes)).
+| CRdispatch (s : bytes) (expect : option (Z * bytes))
+| CStream (writes : list bytes) (stream : bytes) (complete : bool).
 
 Definition check_case (c : case) : bool :=
   match c with
@@ -203,6 +251,7 @@ Definition check_case (c : case) : bool :=
       obytes_eqb (tdispatch_frame tag props headers payload) e
   | CDiscard which reason e => obytes_eqb (tdiscarded_frame which reason) e
   | CRdispatch s e => option_eqb (pair_eqb Z.eqb zlist_eqb) (unmarshal_rdispatch_prefix s) e
+  | CStream ws st c => stream_ok ws st c
   end.
 
 (* what the model computes, for the replay file *)
@@ -213,4 +262,5 @@ Definition explain_case (c : case) : option bytes * option (Z * Z) * option (Z *
   | CDispatch tag props headers payload _ => (tdispatch_frame tag props headers payload, None, None)
   | CDiscard which reason _ => (tdiscarded_frame which reason, None, None)
   | CRdispatch s _ => (None, None, unmarshal_rdispatch_prefix s)
+  | CStream ws st _ => (Some (snd (split_stream (S (length st)) st)), None, None)
   end.
